@@ -3,7 +3,6 @@
 import ast
 import builtins
 import copy
-import functools
 import inspect
 import sys
 import uuid
@@ -576,66 +575,103 @@ class Visitor(ast.NodeVisitor):
         return result
 
     def visit_BoolOp(self, node: ast.BoolOp) -> Any:
-        """Recursively visit the operands and apply the operation on them."""
-        values = [self.visit(value_node) for value_node in node.values]
-
-        # Please see "NOTE ABOUT PLACEHOLDERS AND RE-COMPUTATION"
-        if any(value is PLACEHOLDER for value in values):
-            return PLACEHOLDER
-
-        if isinstance(node.op, ast.And):
-            result = functools.reduce(lambda left, right: left and right, values, True)
-        elif isinstance(node.op, ast.Or):
-            result = functools.reduce(lambda left, right: left or right, values, False)
-        else:
+        """Visit the operands one by one until the result is determined and apply the operation on them."""
+        if not isinstance(node.op, (ast.And, ast.Or)):
             raise NotImplementedError("Unhandled op of {}: {}".format(node, node.op))
+
+        # The operands are visited lazily, exactly as Python evaluates them: the later operands might be defined
+        # only if the preceding operands hold (or do not hold), *e.g.*, ``xs and xs[0] > 0``.
+        result = None  # type: Optional[Any]
+        has_placeholder = False
+
+        for i, value_node in enumerate(node.values):
+            value = self.visit(value_node)
+
+            # Please see "NOTE ABOUT PLACEHOLDERS AND RE-COMPUTATION"
+            #
+            # The remaining operands are still visited so that the values unrelated to the placeholders are collected.
+            if value is PLACEHOLDER:
+                has_placeholder = True
+
+            if has_placeholder:
+                continue
+
+            result = value
+
+            # Python does not test the last operand for truthiness, and neither do we.
+            if i == len(node.values) - 1:
+                break
+
+            if isinstance(node.op, ast.And):
+                if not value:
+                    break
+            else:
+                if value:
+                    break
+
+        if has_placeholder:
+            return PLACEHOLDER
 
         self.recomputed_values[node] = result
         return result
 
     def visit_Compare(self, node: ast.Compare) -> Any:
-        """Recursively visit the comparators and apply the operations on them."""
+        """Visit the comparators one by one until the result is determined and apply the operations on them."""
         left = self.visit(node=node.left)
 
-        comparators = [self.visit(node=comparator) for comparator in node.comparators]
-
-        # Please see "NOTE ABOUT PLACEHOLDERS AND RE-COMPUTATION"
-        if left is PLACEHOLDER or any(
-            comparator is PLACEHOLDER for comparator in comparators
-        ):
-            return PLACEHOLDER
-
+        # The comparators are visited lazily, exactly as Python evaluates them: the later comparators might be
+        # defined only if the preceding comparisons hold, *e.g.*, ``0 < n < 10 // n``.
         result = None  # type: Optional[Any]
-        for comparator, op in zip(comparators, node.ops):
+        has_placeholder = left is PLACEHOLDER
+
+        for i, (comparator_node, op) in enumerate(zip(node.comparators, node.ops)):
+            comparator = self.visit(node=comparator_node)
+
+            # Please see "NOTE ABOUT PLACEHOLDERS AND RE-COMPUTATION"
+            #
+            # The remaining comparators are still visited so that the values unrelated to the placeholders
+            # are collected.
+            if comparator is PLACEHOLDER:
+                has_placeholder = True
+
+            if has_placeholder:
+                continue
+
             if isinstance(op, ast.Eq):
-                comparison = left == comparator
+                result = left == comparator
             elif isinstance(op, ast.NotEq):
-                comparison = left != comparator
+                result = left != comparator
             elif isinstance(op, ast.Lt):
-                comparison = left < comparator
+                result = left < comparator
             elif isinstance(op, ast.LtE):
-                comparison = left <= comparator
+                result = left <= comparator
             elif isinstance(op, ast.Gt):
-                comparison = left > comparator
+                result = left > comparator
             elif isinstance(op, ast.GtE):
-                comparison = left >= comparator
+                result = left >= comparator
             elif isinstance(op, ast.Is):
-                comparison = left is comparator
+                result = left is comparator
             elif isinstance(op, ast.IsNot):
-                comparison = left is not comparator
+                result = left is not comparator
             elif isinstance(op, ast.In):
-                comparison = left in comparator
+                result = left in comparator
             elif isinstance(op, ast.NotIn):
-                comparison = left not in comparator
+                result = left not in comparator
             else:
                 raise NotImplementedError("Unhandled op of {}: {}".format(node, op))
 
-            if result is None:
-                result = comparison
-            else:
-                result = result and comparison
+            # Python does not test the last comparison for truthiness, and neither do we.
+            if i == len(node.ops) - 1:
+                break
+
+            # The chain evaluates to the first comparison which does not hold.
+            if not result:
+                break
 
             left = comparator
+
+        if has_placeholder:
+            return PLACEHOLDER
 
         self.recomputed_values[node] = result
         return result
